@@ -8,7 +8,8 @@ from collections import Counter
 
 import asyncstdlib as A
 
-from ..loop import CTX, drive
+from ..loop import CTX, drive, Driver, Suspend, run_finalizers
+from ..probes import VLock
 
 ID = "C20"
 LEVEL = "exploration"
@@ -163,7 +164,10 @@ def _tools():
 
 TOOLS = _tools()
 TEE_PATTERNS = ["lockstep", "lead8", "lag_then_close", "close_unstarted", "three_children", "handle_close_midway",
-                "biglag_close_last", "biglag_close_middle", "biglag_close_first"]
+                "biglag_close_last", "biglag_close_middle", "biglag_close_first",
+                # two consumer tasks and a real lock: a started child is closed while its sibling holds the lock in the
+                # middle of a fetch, and that close is itself cancelled at each of its suspension points
+                "locked_close_while_sibling_fetches_1", "locked_close_while_sibling_fetches_2", "locked_close_while_sibling_fetches_3"]
 
 
 def cases(tier, seed, shard, nshards):
@@ -337,8 +341,88 @@ def run_tee(case, stats):
     return census, n
 
 
+class SuspendingStream(Stream):
+    async def __anext__(self):
+        await Suspend(("src", self.i), 1)
+        return await Stream.__anext__(self)
+
+
+def run_tee_locked(case, stats):
+    n = case["n"]
+    asteps = int(case["pattern"][-1])
+    result = {"census": None, "cancel_points": 0}
+
+    def execute(cancel_at):
+        CTX.reset()
+        census = Census(2 + 2 + 1 + 2)
+        stream = SuspendingStream(census, n)
+        lock = VLock("tee")
+        a, b = A.tee(stream, 2, lock=lock)
+        info = {"phase": 1, "a_steps": 0}
+
+        async def leader():
+            async for item in a:
+                del item
+                census.sample("leader step, sibling closed")
+
+        async def closer():
+            item = await A.anext(b)
+            del item
+            info["phase"] = 2
+            await Suspend("closer-pause", 1)  # lets the sibling start its fetch
+            info["resumes_at_close"] = tb.resumes
+            try:
+                await b.aclose()
+            finally:
+                info["phase"] = 4
+
+        def choose(runnable):
+            # B takes its first item; A then starts a fetch (holds the lock, waits in the source); B closes; A finishes
+            if info["phase"] == 1:
+                return 1 if 1 in runnable else runnable[0]
+            if info["phase"] == 2:
+                if info["a_steps"] < asteps and 0 in runnable:
+                    info["a_steps"] += 1
+                    return 0
+                info["phase"] = 3
+            if info["phase"] == 3 and 1 in runnable:
+                return 1
+            return runnable[0]
+
+        driver = Driver(choose)
+        driver.spawn("leader", leader())
+        tb = driver.spawn("closer", closer(), cancel_at=cancel_at)
+        driver.run()
+        run_finalizers()
+        if driver.deadlock:
+            census.viol = census.viol or "tasks blocked forever"
+        for t in driver.tasks:
+            if t.exc is not None and t.exc is not t.cancel_exc:
+                census.viol = census.viol or f"task {t.name} ended with {t.exc!r}"
+        return census, info, tb.resumes
+
+    census, info, total = execute(None)
+    result["census"] = census
+    first = info.get("resumes_at_close")
+    if first is not None:
+        for c in range(first + 1, total + 1):  # suspensions inside aclose() only
+            cs, inf, _ = execute(c)
+            result["cancel_points"] += 1
+            census.samples += cs.samples
+            census.refs += cs.refs
+            census.peak = max(census.peak, cs.peak)
+            if cs.viol and not census.viol:
+                census.viol = f"close of the sibling cancelled at its resumption {c}: {cs.viol}"
+    stats["tee_locked_close_cancel_points"] += result["cancel_points"]
+    stats["tee_locked_runs"] += 1
+    return census, n
+
+
 def run_case(case, stats: Counter):
-    if case["tool"] == "tee":
+    if case["tool"] == "tee" and case["pattern"].startswith("locked_"):
+        census, produced = run_tee_locked(case, stats)
+        label = f"tee/{case['pattern']}"
+    elif case["tool"] == "tee":
         census, produced = run_tee(case, stats)
         label = f"tee/{case['pattern']}"
     else:
@@ -362,7 +446,7 @@ def run_case(case, stats: Counter):
 
 
 def finish(stats, tier):
-    for need in ("stream_runs", "census_samples", "items_streamed"):
+    for need in ("stream_runs", "census_samples", "items_streamed", "tee_locked_runs"):
         if not stats.get(need):
             return f"deciding counter {need} is zero"
     return None
